@@ -158,3 +158,183 @@ theorem mem_tfShrink (c ub : Nat) (r : Rng) (x : Nat) :
     simp [c1, c2, c3]
 
 end Moc
+
+namespace Moc
+
+/-- In a canonical list the index just after a range, and the one just before it, are not covered. -/
+theorem canon_gaps {lo : Nat} {l : List Rng} (h : CanonFrom lo l) : ∀ r ∈ l,
+    ¬ mem r.2 l ∧ (r.1 > 0 → ¬ mem (r.1 - 1) l) := by
+  induction l generalizing lo with
+  | nil => intro r hr; cases hr
+  | cons q t ih =>
+    obtain ⟨h1, h2, h3⟩ := h
+    intro r hr
+    cases hr with
+    | head =>
+      constructor
+      · rintro (hh | hh)
+        · omega
+        · have := h3.lb hh; omega
+      · intro _
+        rintro (hh | hh)
+        · omega
+        · have := h3.lb hh; omega
+    | tail _ hm =>
+      have hne := canon_nonempty h3 r hm
+      have hlb := h3.lb ((mem_iff_exists r.1 t).2 ⟨r, hm, Nat.le_refl _, hne⟩)
+      have := ih h3 r hm
+      constructor
+      · rintro (hh | hh)
+        · omega
+        · exact this.1 hh
+      · intro hp
+        rintro (hh | hh)
+        · omega
+        · exact this.2 hp hh
+
+theorem tfShrink_some (c ub : Nat) (r s : Rng) (h : tfShrink c ub r = some s) :
+    r.1 ≤ s.1 ∧ s.1 < s.2 ∧ s.2 ≤ r.2 := by
+  unfold tfShrink at h
+  simp only [] at h
+  generalize hs0 : (if r.1 > 0 then r.1 + c else r.1) = s0 at h
+  generalize he0 : (if r.2 < ub then r.2 - c else r.2) = e0 at h
+  have k1 : r.1 ≤ s0 := by rw [← hs0]; split <;> omega
+  have k2 : e0 ≤ r.2 := by rw [← he0]; split <;> omega
+  split at h
+  · injection h with h
+    subst h
+    rename_i hlt
+    exact ⟨k1, hlt, k2⟩
+  · simp at h
+
+theorem tfContracted_canon (c ub : Nat) (l : List Rng) : ∀ lo, CanonFrom lo l →
+    CanonFrom lo (tfContracted c ub l) := by
+  unfold tfContracted
+  induction l with
+  | nil => intro lo _; trivial
+  | cons r t ih =>
+    intro lo h
+    obtain ⟨h1, h2, h3⟩ := h
+    rw [List.filterMap_cons]
+    have iht := ih (r.2 + 1) h3
+    cases hs : tfShrink c ub r with
+    | none => simp only []; exact iht.mono (by omega)
+    | some s =>
+      simp only []
+      have k := tfShrink_some c ub r s hs
+      exact ⟨by omega, k.2.1, iht.mono (by omega)⟩
+
+/-- **T/F contraction** (repaired code): canonical, and a point is kept iff every point of the domain whose
+    cell is equal or adjacent to its own is covered — i.e. `contracted = complement ∘ expanded ∘ complement`,
+    stated on the covered sets. -/
+theorem tfContracted_spec (c ub : Nat) (hc : 0 < c) (l : List Rng) (hl : Canon l)
+    (hb : BoundedBy ub l) (ha : Aligned c l) (hub : c ∣ ub) :
+    Canon (tfContracted c ub l) ∧
+    ∀ x, mem x (tfContracted c ub l) ↔
+      x < ub ∧ ∀ y, y < ub → x / c ≤ y / c + 1 → y / c ≤ x / c + 1 → mem y l := by
+  refine ⟨tfContracted_canon c ub l 0 hl, fun x => ?_⟩
+  have hmem : mem x (tfContracted c ub l) ↔ ∃ r ∈ l, ∃ s, tfShrink c ub r = some s ∧ s.1 ≤ x ∧ x < s.2 := by
+    unfold tfContracted
+    rw [mem_iff_exists]
+    constructor
+    · rintro ⟨s, hs, h⟩
+      obtain ⟨r, hr, hrs⟩ := List.mem_filterMap.1 hs
+      exact ⟨r, hr, s, hrs, h⟩
+    · rintro ⟨r, hr, s, hrs, h⟩
+      exact ⟨s, List.mem_filterMap.2 ⟨r, hr, hrs⟩, h⟩
+  rw [hmem]
+  obtain ⟨n, hn⟩ := hub
+  -- facts on x / c
+  have hxd := Nat.div_add_mod x c
+  have hxm := Nat.mod_lt x hc
+  constructor
+  · rintro ⟨r, hr, hs⟩
+    have cond := (mem_tfShrink c ub r x).1 hs
+    obtain ⟨a, ha'⟩ := (ha r hr).1
+    obtain ⟨b, hb'⟩ := (ha r hr).2
+    have hrb := hb r hr
+    have hne := canon_nonempty hl r hr
+    -- x lies inside r
+    have hx1 : r.1 ≤ x := by
+      by_cases h0 : r.1 > 0
+      · have := cond.1 h0; omega
+      · have := cond.2.1 (by omega); omega
+    have hx2 : x < r.2 := by
+      by_cases h0 : r.2 < ub
+      · have := cond.2.2.1 h0; omega
+      · exact cond.2.2.2 h0
+    refine ⟨by omega, fun y hy k1 k2 => ?_⟩
+    refine (mem_iff_exists y l).2 ⟨r, hr, ?_, ?_⟩
+    · -- lower bound
+      by_cases h0 : r.1 > 0
+      · have h1 := cond.1 h0
+        -- a + 1 ≤ x / c
+        have hxa : a + 1 ≤ x / c := by
+          rw [Nat.le_div_iff_mul_le hc, Nat.add_mul, Nat.one_mul, Nat.mul_comm]; omega
+        have hya : a ≤ y / c := by omega
+        have : c * a ≤ y := by
+          have := (Nat.le_div_iff_mul_le hc).1 hya
+          rw [Nat.mul_comm] at this; exact this
+        omega
+      · omega
+    · -- upper bound
+      by_cases h0 : r.2 < ub
+      · have h1 := cond.2.2.1 h0
+        -- x / c + 1 < b, so y / c < b
+        have hxb : x / c + 1 < b := by
+          have : x + c < c * b := by omega
+          have h2 : x / c + 1 = (x + c) / c := by rw [Nat.add_div_right _ hc]
+          rw [h2, Nat.div_lt_iff_lt_mul hc, Nat.mul_comm]; exact this
+        have hyb : y / c < b := by omega
+        have : y < c * b := by
+          have := (Nat.div_lt_iff_lt_mul hc).1 hyb
+          rw [Nat.mul_comm] at this; exact this
+        omega
+      · omega
+  · rintro ⟨hxu, hall⟩
+    have hxl := hall x hxu (by omega) (by omega)
+    obtain ⟨r, hr, hx1, hx2⟩ := (mem_iff_exists x l).1 hxl
+    refine ⟨r, hr, (mem_tfShrink c ub r x).2 ⟨?_, fun _ => hx1, ?_, fun _ => hx2⟩⟩
+    · intro h0
+      -- otherwise r.1 - 1 is a neighbour of x that is not covered
+      apply Classical.byContradiction; intro hlt
+      obtain ⟨a, ha'⟩ := (ha r hr).1
+      have hgap := (canon_gaps hl r hr).2 h0
+      apply hgap
+      have hapos : 0 < a := by
+        apply Classical.byContradiction; intro h; have : a = 0 := by omega
+        rw [this] at ha'; omega
+      have hxa : x / c = a := by
+        apply Nat.div_eq_of_lt_le
+        · rw [Nat.mul_comm]; omega
+        · rw [Nat.add_mul, Nat.one_mul, Nat.mul_comm]; omega
+      have hya : (r.1 - 1) / c = a - 1 := by
+        apply Nat.div_eq_of_lt_le
+        · rw [Nat.mul_comm, ha']
+          have : c * (a - 1) + c = c * a := by
+            rw [← Nat.mul_succ]; congr 1; omega
+          omega
+        · have : a - 1 + 1 = a := by omega
+          rw [this, Nat.mul_comm]; omega
+      exact hall (r.1 - 1) (by omega) (by omega) (by omega)
+    · intro h0
+      apply Classical.byContradiction; intro hlt
+      obtain ⟨b, hb'⟩ := (ha r hr).2
+      have hgap := (canon_gaps hl r hr).1
+      apply hgap
+      have hbpos : 0 < b := by
+        apply Classical.byContradiction; intro h; have : b = 0 := by omega
+        rw [this] at hb'; omega
+      have hxb : x / c = b - 1 := by
+        apply Nat.div_eq_of_lt_le
+        · rw [Nat.mul_comm]
+          have : c * (b - 1) + c = c * b := by
+            rw [← Nat.mul_succ]; congr 1; omega
+          omega
+        · have : b - 1 + 1 = b := by omega
+          rw [this, Nat.mul_comm]; omega
+      have hyb : r.2 / c = b := by
+        rw [hb']; exact Nat.mul_div_cancel_left b hc
+      exact hall r.2 h0 (by omega) (by omega)
+
+end Moc
